@@ -83,12 +83,18 @@ static
  */
 EXPORT constraint_handler_t
 set_str_constraint_handler_s(constraint_handler_t handler) {
-    constraint_handler_t prev_handler = str_handler;
+    constraint_handler_t prev_handler;
     if (NULL == handler) {
-        str_handler = sl_default_handler;
-    } else {
-        str_handler = handler;
+        handler = sl_default_handler;
     }
+#if defined(__GNUC__) && !defined(__KERNEL__)
+    /* one atomic exchange: concurrent registrations each get the handler
+       they replaced */
+    prev_handler = __atomic_exchange_n(&str_handler, handler, __ATOMIC_SEQ_CST);
+#else
+    prev_handler = str_handler;
+    str_handler = handler;
+#endif
     return prev_handler;
 }
 #ifdef __KERNEL__
